@@ -548,6 +548,7 @@ class Interp:
             if attr in ("shape", "ndim", "dtype", "device", "T", "mT", "requires_grad"):
                 return getattr(v, attr)
             if attr == "data":
+                symt.GRAPH_EVENTS.append((".data", id(v.store)))
                 return v
             if attr == "is_cuda":
                 return False
